@@ -11,6 +11,7 @@
 
 pub mod frame;
 pub mod host;
+pub mod hostrun;
 pub mod store;
 pub mod syncspy;
 
